@@ -581,6 +581,67 @@ def _all_subclasses(c):
 
 # ---------------------------------------------------------------- main
 
+
+def kept_probe(nlist):
+    """Behavioural probes of the RUNNING classes (no source shape involved):
+    write_first   - setters of a validated scalar that leave a refused value in the object they were called on (a valid value is
+                    stored first; the refused one arrives through the setter, set_property and the bulk set_properties with other
+                    keywords before and after it);
+    decode_alters - member words (the sentinel look-alikes of harness/lib_c16: spellings of null / true / empty in Python, JSON,
+                    Cypher and every short string constant of ABCPropertyGraphConstants) that the property-dictionary decoder
+                    set_base_sliver_properties_from_graph_properties_dict does not hand back as the name / boot script it was given."""
+    try:
+        import lib_c16
+        words = lib_c16.sentinel_words()
+    except ImportError as e:
+        raise ExtractionError("harness/lib_c16.py (sentinel pool) cannot be imported: %s" % e)
+    from fim.graph.abc_property_graph import ABCPropertyGraph as G
+    import fim.slivers.base_sliver as bs
+    subs = {c.__name__: c for c in _all_subclasses(bs.BaseSliver)}
+    limit = bs.BaseSliver.BOOST_SCRIPT_SIZE
+    write_first, alters = set(), set()
+    routes = {"direct": lambda s, m, k, v: getattr(s, m)(v), "set_property": lambda s, m, k, v: s.set_property(k, v),
+              "set_properties": lambda s, m, k, v: s.set_properties(details="d", **{k: v}, model="m")}
+    for cname in nlist:
+        c = subs[cname]
+        try:
+            c()
+        except TypeError:
+            continue                         # abstract
+        for meth, key, field, good, bads in (("set_name", "name", "resource_name", "ab", ["ab\n!", "", 7]),
+                                             ("set_boot_script", "boot_script", "boot_script", "echo", ["x" * limit, "x" * (limit + 1), 7, ["x"]])):
+            for rname, route in routes.items():
+                for bad in bads:
+                    s = c()
+                    try:
+                        getattr(s, meth)(good)
+                    except Exception as e:
+                        raise ExtractionError("%s.%s(%r) raises %s" % (cname, meth, good, type(e).__name__))
+                    try:
+                        route(s, meth, key, bad)
+                        continue             # accepted: judged by the oracle, not a write-before-check
+                    except Exception:
+                        pass
+                    if getattr(s, field) != good:
+                        write_first.add("%s" % meth)
+        for w in words:
+            for prop, field, ok in ((G.PROP_NAME, "resource_name", re.fullmatch(c.NAME_REGEX, w) is not None),
+                                    (G.PROP_BOOT_SCRIPT, "boot_script", len(w) < limit)):
+                if not ok:
+                    continue
+                d = {G.PROP_NAME: "ab"}
+                d[prop] = w
+                s = c()
+                try:
+                    G.set_base_sliver_properties_from_graph_properties_dict(s, d)
+                    got = getattr(s, field)
+                except Exception:
+                    got = None
+                if got != w:
+                    alters.add(w)
+    return sorted(write_first), sorted(alters), len(words)
+
+
 def generate():
     tree, src = parse(REL_CL)
     cls, ranges = label_tables(tree)
@@ -696,6 +757,14 @@ def generate():
     body += "def jsonMax : List (String × Nat) := %s\n" % lean_list(["(%s, %d)" % (lean_str(c), m) for c, m in jl])
     body += "def jsonTooLong (n max : Nat) : Bool := decide (n %s max)\n" % jop
 
+    wf, alters, nwords = kept_probe(nlist)
+    body += "\n/-- setters of a validated scalar that leave a REFUSED value in the object they were called on (behavioural probe of every\n"
+    body += "    sliver class: a valid value first, then a refused one through the setter, set_property and set_properties) -/\n"
+    body += "def writeFirst : List String := %s\n" % lean_list([lean_str(x) for x in wf])
+    body += "/-- member words (out of %d sentinel look-alikes: None, null, NaN, '', property and class names of the graph layer ...) that the\n" % nwords
+    body += "    property-dictionary decoder does not hand back as the name / boot script it was given (behavioural probe) -/\n"
+    body += "def decodeAlters : List String := %s\n" % lean_list([lean_str(x) for x in alters])
+    report["kept_probe"] = {"write_first": wf, "decode_alters": alters, "words": nwords}
     raw, entries = graph_writers()       # the set of entry points is pinned by gen/entrypoints.py (probe registry of the harness)
     body += "\n/-- methods of fim.user that write a validated property straight into the graph (not through a sliver), and what\n"
     body += "    routes the value through the validator before the write (\"unguarded\" = nothing does) -/\n"
